@@ -266,7 +266,7 @@ fn long_detectors(left: usize, right: usize, total: usize, seed: u64, r: &mut Re
 	r.eval(4 * t);
 	r.count("steps:detectors", t);
 	r.count("reversals_fired_in_long_streams", fired);
-	r.count("times_position_crossed_PeriodType_capacity", t / (P::MAX as u64 + 1));
+	r.count("times_position_crossed_PeriodType_capacity", t / (P::MAX as u64).saturating_add(1).max(1));
 	r.max("longest stream (steps)", t as f64);
 }
 
